@@ -80,12 +80,16 @@ def doc (cfg : Cfg) (s : St) : Op → Doc
   | .svCtorNV _ n v => ⟨[(kCtorN 1, n ≤ s.cap)], fun _ => [], fun _ => withElems s (List.replicate n v)⟩
   | .svCtorRng _ xs o => ⟨[(kCtorOrd, o), (kCtorFit, xs.length ≤ s.cap)], fun _ => [], fun _ => withElems s xs⟩
   | .svClear _ => ⟨[], fun _ => [], fun _ => withElems s []⟩
-  | .ivFront k => ⟨[(IV.kFront k, s.size ≠ 0)], fun _ => elemAt s.elems 0, fun _ => s⟩
-  | .ivBack k => ⟨[(IV.kBack k, s.size ≠ 0)], fun _ => lastOf s.elems, fun _ => s⟩
-  | .ivAt k i => ⟨[(IV.kAt k, i < s.size)], fun _ => elemAt s.elems i, fun _ => s⟩
-  | .ivEmplaceBack v => ⟨[(IV.kEmplace, s.size < s.cap)], fun _ => [v], fun _ => withElems s (s.elems ++ [v])⟩
-  | .ivPush k v => ⟨[(IV.kPush k, s.size < s.cap)], fun _ => [v], fun _ => withElems s (s.elems ++ [v])⟩
-  | .ivPop => ⟨[(IV.kPop, s.size ≠ 0)], fun _ => [], fun _ => withElems s s.elems.dropLast⟩
+  -- inplace_vector<T, 0> is always empty and always full: every such call violates the precondition; its members are those
+  -- of a separate specialisation, so the reporting site is the `false` check there
+  | .ivFront k => ⟨if s.cap = 0 then [(IV.kFrontZ k, false)] else [(IV.kFront k, s.size ≠ 0)], fun _ => elemAt s.elems 0, fun _ => s⟩
+  | .ivBack k => ⟨if s.cap = 0 then [(IV.kBackZ k, false)] else [(IV.kBack k, s.size ≠ 0)], fun _ => lastOf s.elems, fun _ => s⟩
+  | .ivAt k i => ⟨if s.cap = 0 then [(IV.kAtZ k, false)] else [(IV.kAt k, i < s.size)], fun _ => elemAt s.elems i, fun _ => s⟩
+  | .ivEmplaceBack v =>
+    ⟨if s.cap = 0 then [(IV.kEmplaceZ, false)] else [(IV.kEmplace, s.size < s.cap)], fun _ => [v], fun _ => withElems s (s.elems ++ [v])⟩
+  | .ivPush k v =>
+    ⟨if s.cap = 0 then [(IV.kPushZ k, false)] else [(IV.kPush k, s.size < s.cap)], fun _ => [v], fun _ => withElems s (s.elems ++ [v])⟩
+  | .ivPop => ⟨if s.cap = 0 then [(IV.kPopZ, false)] else [(IV.kPop, s.size ≠ 0)], fun _ => [], fun _ => withElems s s.elems.dropLast⟩
   | .vwAt i => ⟨[(VW.kAt, i < s.size)], fun _ => elemAt s.elems i, fun _ => s⟩
   | .vwFront => ⟨[(VW.kFront, s.size ≠ 0)], fun _ => elemAt s.elems 0, fun _ => s⟩
   | .vwBack => ⟨[(VW.kBack, s.size ≠ 0)], fun _ => lastOf s.elems, fun _ => s⟩
